@@ -253,7 +253,8 @@ def _o_iter(case):
         if case.get("rawchunked"):
             # NOT a chunked body at all (e.g. the tail of a response header, text lines, binary): still only library errors
             encoded = bytes.fromhex(case["rawchunked"]) + data
-        sock = ScriptedSocket(streams.split(encoded, [c for c in case["cuts"] if 0 < c < len(encoded)]) + ["close"])
+        # "close": the peer closes; "dead": the connection breaks - every further recv() raises ConnectionResetError
+        sock = ScriptedSocket(streams.split(encoded, [c for c in case["cuts"] if 0 < c < len(encoded)]) + [case.get("end", "close")])
         sock.budget = 6 * len(encoded) + 256
         stream = sock
     elif case["stream"] == "nonseekable":
@@ -343,6 +344,7 @@ def s_iter(draw, tier):
         n = sum(len(i["b"]) // 2 for i in items)
         raw = draw(st.one_of(st.none(), st.none(), st.sampled_from([b"ked\r\n\r\n", b"Transfer-Encoding: chunked\r\n\r\n", b"zz\r\n", b"1g\r\n", b"ffffffffffffffffffff\r\nabc\r\n", b"7fffffffffffffff\r\n", b"-1\r\n", b"-4\r\n", b"-5\r\n", b"-6\r\n", b"-7\r\n", b"-9\r\n", b"-a\r\n", b"-10\r\n", b"+3\r\nabc\r\n", b"0x10\r\n", b" 5 \r\nhello\r\n", b"5;ext=1\r\nhello\r\n"]), st.binary(min_size=1, max_size=30)))
         extra = {"rawchunked": raw.hex() if raw else None, "enc": draw(st.sampled_from(["none", "gzip", "compress", "deflate", "gzip+deflate", "gzip+compress", "compress+deflate", "gzip+compress+deflate"])), "chunk": draw(st.sampled_from([7, 64, 500, 5000])), "cuts": draw(streams.partitions(max(2, 2 * n)))}
+        extra["end"] = draw(st.sampled_from(["close", "close", "dead"]))
         if extra["enc"] != "none" and draw(st.integers(0, 2)) == 0:
             extra["badchunk"] = [draw(st.sampled_from(["cut", "cut", "flip"])), draw(st.integers(1, 12))]
     return {
